@@ -16,3 +16,45 @@ pub mod shapes;
 pub mod tape;
 pub mod transform;
 pub mod verifier;
+
+/// The process allocator of the harness: the system allocator, with fresh and released memory filled with a pattern.
+///
+/// Reading uninitialised or released memory is undefined behaviour whose effect depends on what the allocator happens
+/// to hand out, so a check that meets it fails in a way that does not reproduce. With the pattern, such a read yields
+/// the same words in every process: as an `Object`, `0xFEFE…FE` is an array and `0xFDFD…FD` a string at a
+/// non-canonical address, which the shadow heap (H5) reports as a dereference of an unknown block.
+/// Correct code never observes the difference.
+pub struct PoisonAlloc;
+
+const FRESH: u8 = 0xFE;
+const RELEASED: u8 = 0xFD;
+
+unsafe impl std::alloc::GlobalAlloc for PoisonAlloc {
+    unsafe fn alloc(&self, l: std::alloc::Layout) -> *mut u8 {
+        let p = std::alloc::System.alloc(l);
+        if !p.is_null() {
+            std::ptr::write_bytes(p, FRESH, l.size());
+        }
+        p
+    }
+    unsafe fn alloc_zeroed(&self, l: std::alloc::Layout) -> *mut u8 {
+        std::alloc::System.alloc_zeroed(l)
+    }
+    unsafe fn dealloc(&self, p: *mut u8, l: std::alloc::Layout) {
+        std::ptr::write_bytes(p, RELEASED, l.size());
+        std::alloc::System.dealloc(p, l)
+    }
+    unsafe fn realloc(&self, p: *mut u8, l: std::alloc::Layout, new_size: usize) -> *mut u8 {
+        if new_size < l.size() {
+            std::ptr::write_bytes(p.add(new_size), RELEASED, l.size() - new_size);
+        }
+        let q = std::alloc::System.realloc(p, l, new_size);
+        if !q.is_null() && new_size > l.size() {
+            std::ptr::write_bytes(q.add(l.size()), FRESH, new_size - l.size());
+        }
+        q
+    }
+}
+
+#[global_allocator]
+static GLOBAL: PoisonAlloc = PoisonAlloc;
